@@ -94,10 +94,14 @@ def run (j : Json) : Except String Json := do
   let fieldsJ ← afld j "fields"
   let kinds ← fieldsJ.mapM fun f => do return (← cfld f "name", ← parseKindC20 (← fld f "kind"))
   let kindOf (n : List Char) : Flatland.Scalar.Kind := ((kinds.find? (·.1 == n)).map (·.2)).getD (.string true)
+  let sparse := match j.getObjVal? "sparse" with | .ok (.bool b) => b | _ => false
   let S : Schema NV := { fields := kinds.map (·.1), blank := .none,
-                         setF := fun n x => setValue (kindOf n) x, policy := ← parsePolicy j }
+                         setF := fun n x => setValue (kindOf n) x, policy := ← parsePolicy j, sparse := sparse }
   -- the element's state: every member has been `set()` with the case's raw value
-  let e : Elem NV ← fieldsJ.mapM fun f => do
+  let presentJ ← fieldsJ.filterM fun f => do
+    if !sparse then return true
+    match f.getObjVal? "present" with | .ok (.bool b) => return b | _ => return true
+  let e : Elem NV ← presentJ.mapM fun f => do
     let n ← cfld f "name"
     return (n, S.setF n (← parseNV (← fld f "value")))
   let a ← parseArgs j
@@ -121,7 +125,7 @@ def run (j : Json) : Except String Json := do
     | .error x => return obj [("exc", excJson (some x)), ("obj", objJson o), ("reads", Json.null),
                               ("value", Json.null)]
     | .ok o' =>
-      let blank : Elem NV := S.fields.map (·, S.blank)
+      let blank : Elem NV := if sparse then [] else S.fields.map (·, S.blank)
       let r := setByObject S blank o' a2
       return obj [("exc", excJson r.exc), ("obj", objJson o'), ("reads", ofList ofChars r.reads),
                   ("value", pairsJson r.elem)]
